@@ -583,6 +583,15 @@ func (b *BaseStore) Load(ctx context.Context, amount int) error {
 				return
 			}
 
+			// the fetcher stops where it is when the context ends and hands
+			// back what it has read so far: a part merged now could never be
+			// completed, a later Load stops at the entries the log holds
+			if ctxErr := ctx.Err(); ctxErr != nil {
+				span.AddEvent("store-head-loading-aborted")
+				err = fmt.Errorf("load aborted: %w", ctxErr)
+				return
+			}
+
 			b.recalculateReplicationStatus(h.GetClock().GetTime())
 
 			span.AddEvent("store-head-loaded")
